@@ -311,9 +311,6 @@ def dts_roundtrip():
         check(dd.value == t.value.strftime("%y-%m-%dT%H:%M:%S"), "decode(encode(t)) == t")
 
 
-def kf_dts_year00(y):
-    """known-finding class: years xx00 pack as year 0, which the decoder rejects."""
-    return y % 100 == 0
 
 
 @harness("C04")
